@@ -214,6 +214,7 @@ func c10Recovery(sc c10Scenario, plan []c10Fault, baseline string) (string, []st
 }
 
 type c10Obs struct {
+	Spawned int
 	Calls   []world.Call
 	Fired   []string
 	Class   string
@@ -221,15 +222,48 @@ type c10Obs struct {
 	Detail  map[string]any
 }
 
-func c10Run(sc c10Scenario, plan []c10Fault) c10Obs {
+// c10Build builds the world and the request of a case. primed: the same request is first served fault-free by the
+// same provider (anything the IdP keeps from a successful request is then in place) and the plan's occurrences count
+// from the second request on.
+func c10Build(sc c10Scenario, plan []c10Fault, primed bool) (*world.World, *http.Request) {
 	w, req := sc.Build()
-	for _, f := range plan {
-		w.Store.FaultAt(f.Op, f.Occ, f.Kind)
+	if !primed {
+		for _, f := range plan {
+			w.Store.FaultAt(f.Op, f.Occ, f.Kind)
+		}
+		return w, req
 	}
-	before := w.Store.CallCount()
+	w.Do(req)
+	for _, f := range plan {
+		w.Store.FaultNext(f.Op, f.Occ, f.Kind)
+	}
+	w.Store.ResetFired()
+	w.OccBase = map[string]int{}
+	for _, f := range plan {
+		w.OccBase[f.Op] = w.Store.Occ(f.Op)
+	}
+	_, req2 := sc.Build() // an equal request (both worlds number their records identically)
+	return w, req2
+}
+
+func c10Run(sc c10Scenario, plan []c10Fault) c10Obs { return c10RunP(sc, plan, false) }
+
+func c10RunP(sc c10Scenario, plan []c10Fault, primed bool) c10Obs {
+	w, req := c10Build(sc, plan, primed)
 	rep := w.Do(req)
-	o := c10Obs{Calls: rep.Calls, Fired: w.Store.Fired(), Detail: map[string]any{}}
-	_ = before
+	return c10Judge(sc, w, rep)
+}
+
+// c10Judge applies the fail-closed oracle to one reply.
+func c10Judge(sc c10Scenario, w *world.World, rep *world.Reply) c10Obs {
+	o := c10Obs{Calls: rep.Calls, Detail: map[string]any{}, Spawned: rep.Spawned}
+	for _, f := range w.Store.Fired() {
+		// occurrence numbers relative to the judged request (primed histories)
+		i, j := strings.LastIndex(f, "#"), strings.LastIndex(f, "=")
+		var n int
+		fmt.Sscanf(f[i+1:j], "%d", &n)
+		o.Fired = append(o.Fired, fmt.Sprintf("%s#%d%s", f[:i], n-w.OccBase[f[:i]], f[j:]))
+	}
 	bad := func(c string) { o.Clauses = append(o.Clauses, c) }
 	m := obs.Decode(rep)
 	o.Detail["reply"] = obs.Describe(rep, m)
@@ -325,6 +359,7 @@ func c10Run(sc c10Scenario, plan []c10Fault) c10Obs {
 type c10Replay struct {
 	Scenario string     `json:"scenario"`
 	Plan     []c10Fault `json:"plan"`
+	Primed   bool       `json:"after_success,omitempty"`
 }
 
 func init() { Registry["C10"] = runC10 }
@@ -333,7 +368,7 @@ func runC10(ctx Ctx) int {
 	world.PinClock()
 	run := ev.NewRun("C10")
 	run.Level = "fault_enumeration"
-	run.Rule = "for each of the endpoint scenarios (SSO x4, callback x {POST, Redirect} x {done, pending, unknown id} + unusable configured algorithms, logout, attribute query x2, metadata with signing off/on/unusable algorithm, certificate, ready, healthz) the fault-free run records the ordered storage call trace; every call occurrence x every applicable fault kind (returned error, context deadline / cancellation error; user-info: error after some setters were already called; for the key getters: nil record, key without certificate, certificate without key, empty certificate, garbage certificate, zero key, certificate of another key) is injected singly, and for every run that continues past the fault every later call occurrence is faulted too (all pairs; thorough: triples); traces are re-recorded on every run; after every single fault the same request is sent again to the same provider with storage healthy and must get the fault-free outcome. A case is distinct by (scenario, fault plan)"
+	run.Rule = "for each of the endpoint scenarios (SSO x4, callback x {POST, Redirect} x {done, pending, unknown id} + unusable configured algorithms, logout, attribute query x2, metadata with signing off/on/unusable algorithm, certificate, ready, healthz) the fault-free run records the ordered storage call trace; every call occurrence x every applicable fault kind (returned error, context deadline / cancellation error; user-info: error after some setters were already called; for the key getters: nil record, key without certificate, certificate without key, empty certificate, garbage certificate, zero key, certificate of another key) is injected singly, and for every run that continues past the fault every later call occurrence is faulted too (all pairs; thorough: triples); traces are re-recorded on every run; after every single fault the same request is sent again to the same provider with storage healthy and must get the fault-free outcome; every plan is also run AFTER the same request was served fault-free by the same provider (occurrences counted from the second request); a case whose handler starts goroutines is re-run under the controlled scheduler for every interleaving (preemption bound 1 quick / 2 thorough, statement granularity). A case is distinct by (scenario, fault plan)"
 	run.Assume = []string{"garbage certificate bytes and a zero rsa.PrivateKey are outside the statement's list of failures: for them only the no-panic and no-usable-Success clauses are applied", "faults are injected at the storage interface only"}
 	scs := c10Scenarios()
 	byName := map[string]c10Scenario{}
@@ -346,7 +381,7 @@ func runC10(ctx Ctx) int {
 			fmt.Println("replay:", err)
 			return 2
 		}
-		o := c10Run(byName[rp.Scenario], rp.Plan)
+		o := c10RunP(byName[rp.Scenario], rp.Plan, rp.Primed)
 		fmt.Printf("replay C10: %+v -> class=%s fired=%v clauses=%v detail=%v\n", rp, o.Class, o.Fired, o.Clauses, o.Detail)
 		if len(o.Clauses) > 0 {
 			fmt.Printf("VIOLATION property=C10 replay=%s\n", ctx.Replay)
@@ -372,6 +407,17 @@ func runC10(ctx Ctx) int {
 	var fired, notFired int64
 	baselines := map[string]string{}
 	var bmu sync.Mutex
+	type spawnJob struct {
+		sc     c10Scenario
+		plan   []c10Fault
+		primed bool
+	}
+	var spawned []spawnJob
+	// requests that start goroutines (never on the unchanged tree): preemption bound 1 / 2, per-case and total time budgets
+	spawnBound, spawnPer, spawnDeadline := 1, 5*time.Second, time.Now().Add(90*time.Second)
+	if run.Tier == "thorough" {
+		spawnBound, spawnPer, spawnDeadline = 2, 60*time.Second, time.Now().Add(15*time.Minute)
+	}
 	for depth := 0; depth <= maxDepth && len(level) > 0; depth++ {
 		next := make([][]job, len(level))
 		_, ok := parallel(len(level), deadline, func(i int) {
@@ -390,13 +436,45 @@ func runC10(ctx Ctx) int {
 				run.Evaluations.Add(1)
 				run.Outcome(j.sc.Kind + "/recovery/" + rc)
 				for _, c := range rcl {
-					run.Violate(c, j.sc.Name, []string{"scenario=" + j.sc.Name, fmt.Sprintf("fault=%s#%d:%s", j.plan[0].Op, j.plan[0].Occ, j.plan[0].Kind), "then-same-request-again"}, map[string]any{"got": rc, "fault_free": base}, c10Replay{j.sc.Name, j.plan})
+					run.Violate(c, j.sc.Name, []string{"scenario=" + j.sc.Name, fmt.Sprintf("fault=%s#%d:%s", j.plan[0].Op, j.plan[0].Occ, j.plan[0].Kind), "then-same-request-again"}, map[string]any{"got": rc, "fault_free": base}, c10Replay{j.sc.Name, j.plan, false})
 				}
 			}
 			run.Evaluations.Add(1)
 			run.Transitions.Add(int64(len(o.Calls)))
 			run.Outcome(fmt.Sprintf("%s/faults=%d/%s", j.sc.Kind, len(o.Fired), o.Class))
 			run.State(j.sc.Name + fmt.Sprint(j.plan))
+			planLabels := func(extra ...string) []string {
+				l := []string{"scenario=" + j.sc.Name}
+				for _, f := range j.plan {
+					l = append(l, fmt.Sprintf("fault=%s#%d:%s", f.Op, f.Occ, f.Kind))
+				}
+				return append(l, extra...)
+			}
+			if o.Spawned > 0 {
+				// the handler started goroutines: decided after this level under the controlled scheduler
+				bmu.Lock()
+				spawned = append(spawned, spawnJob{j.sc, j.plan, false})
+				bmu.Unlock()
+			}
+			if len(j.plan) > 0 && len(o.Fired) == len(j.plan) {
+				// the same plan after the same request was served successfully by this provider (state kept from a success)
+				po := c10RunP(j.sc, j.plan, true)
+				run.Evaluations.Add(1)
+				run.Transitions.Add(int64(len(po.Calls)))
+				run.Outcome(fmt.Sprintf("%s/after-success/faults=%d/%s", j.sc.Kind, len(po.Fired), po.Class))
+				if po.Spawned > 0 {
+					bmu.Lock()
+					spawned = append(spawned, spawnJob{j.sc, j.plan, true})
+					bmu.Unlock()
+				}
+				seenP := map[string]bool{}
+				for _, c := range po.Clauses {
+					if !seenP[c] {
+						seenP[c] = true
+						run.Violate(c, j.sc.Name, planLabels("after-the-same-request-was-served-successfully"), po.Detail, c10Replay{j.sc.Name, j.plan, true})
+					}
+				}
+			}
 			if len(j.plan) > 0 && len(o.Fired) < len(j.plan) {
 				// the planned later fault was never reached (the request ended before): nothing new to learn
 				return
@@ -409,7 +487,7 @@ func runC10(ctx Ctx) int {
 			for _, c := range o.Clauses {
 				if !seen[c] {
 					seen[c] = true
-					run.Violate(c, j.sc.Name, labels, o.Detail, c10Replay{j.sc.Name, j.plan})
+					run.Violate(c, j.sc.Name, labels, o.Detail, c10Replay{j.sc.Name, j.plan, false})
 				}
 			}
 			if depth == maxDepth {
@@ -435,6 +513,34 @@ func runC10(ctx Ctx) int {
 			}
 		})
 		complete = complete && ok
+		// cases whose handler started goroutines: every interleaving (preemption bound 2, statement granularity), serially
+		for _, sj := range spawned {
+			sj := sj
+			if time.Now().After(spawnDeadline) {
+				run.NotExhaustive("time budget for exploring requests that start goroutines is used up")
+				break
+			}
+			labels := []string{"scenario=" + sj.sc.Name}
+			for _, f := range sj.plan {
+				labels = append(labels, fmt.Sprintf("fault=%s#%d:%s", f.Op, f.Occ, f.Kind))
+			}
+			if sj.primed {
+				labels = append(labels, "after-the-same-request-was-served-successfully")
+			}
+			n, okx := exploreSpawned(func() (*world.World, *http.Request) { return c10Build(sj.sc, sj.plan, sj.primed) }, spawnBound, spawnPer, func(w *world.World, rep *world.Reply) {
+				o := c10Judge(sj.sc, w, rep)
+				run.Outcome(fmt.Sprintf("%s/goroutines/faults=%d/%s", sj.sc.Kind, len(o.Fired), o.Class))
+				for _, c := range o.Clauses {
+					run.Violate(c, sj.sc.Name, append(labels, "some-interleaving-of-the-goroutines-the-handler-starts"), o.Detail, c10Replay{sj.sc.Name, sj.plan, sj.primed})
+				}
+			})
+			run.Evaluations.Add(n)
+			run.Add("schedules_of_requests_that_start_goroutines", n)
+			if !okx {
+				run.NotExhaustive("a request that starts goroutines could not be explored completely under the scheduler")
+			}
+		}
+		spawned = nil
 		var nl []job
 		for _, n := range next {
 			nl = append(nl, n...)
@@ -450,8 +556,8 @@ func runC10(ctx Ctx) int {
 	}
 	sort.Strings(names)
 	run.Set("scenarios", names)
-	run.Sample(c10Replay{"callback-post-done", []c10Fault{{"SetUserinfoWithUserID", 1, world.FaultError}}})
-	run.Sample(c10Replay{"metadata-signing-rsa-sha256", []c10Fault{{"GetResponseSigningKey", 1, world.FaultNoCert}, {"GetMetadataSigningKey", 1, world.FaultNilRecord}}})
+	run.Sample(c10Replay{"callback-post-done", []c10Fault{{"SetUserinfoWithUserID", 1, world.FaultError}}, false})
+	run.Sample(c10Replay{"metadata-signing-rsa-sha256", []c10Fault{{"GetResponseSigningKey", 1, world.FaultNoCert}, {"GetMetadataSigningKey", 1, world.FaultNilRecord}}, true})
 	finishCapped(run, complete, fmt.Sprintf("%d scenarios; all single faults and all %s on the discovered traces", len(scs), map[int]string{2: "pairs", 3: "pairs and triples"}[maxDepth]))
 	return run.Finish()
 }
